@@ -182,7 +182,7 @@ type gen struct {
 
 func (g *gen) pick(label string, xs []string) string { return rapid.SampledFrom(xs).Draw(g.t, label) }
 func (g *gen) n(label string, lo, hi int) int        { return rapid.IntRange(lo, hi).Draw(g.t, label) }
-func (g *gen) chance(label string, outOf int) bool   { return rapid.IntRange(0, outOf-1).Draw(g.t, label) == 0 }
+func (g *gen) chance(label string, outOf int) bool   { return rapid.IntRange(0, outOf-1).Draw(g.t, label) == outOf-1 }
 
 var words = []string{"x", "hello", "world", "42", "a.b", "é", "naïve", "日本", "ok;", "#1", "50%", "a/b", "(c)", "[d]", "=", "--", "e=mc2"}
 
@@ -197,7 +197,7 @@ var mustachesSafe = []string{
 // character reference; region of finding fMustache
 var mustachesRisky = []string{"{{ a<b }}", "{{ '<b>' + x }}", `{{ "</p>" }}`, "{{ p&lt }}", "{{ x ? '<i>' : '&amp;' }}"}
 
-func rawSafeText(s string) bool { return !riskyMustache.MatchString(s) }
+func rawSafeText(s string) bool { return !riskyText(s) }
 
 // escText escapes text for the source; mustaches that are safe may be written raw.
 func escText(s string, raw bool) string {
@@ -238,7 +238,7 @@ func (g *gen) textSource(allowWS bool) string {
 		case 10:
 			sb.WriteString(g.pick("ent", []string{"&copy;", "&nbsp;", "&mdash;", "&hellip;", "&eacute;"}))
 		case 11:
-			sb.WriteString(g.pick("lone", []string{"{{", "}}", "{ x }", "{{ unclosed", "}} {{"}))
+			sb.WriteString(g.pick("lone", []string{"}}", "{ x }", "} }", "}"}))
 		}
 	}
 	s := sb.String()
@@ -664,7 +664,7 @@ func (g *gen) flow(depth int, fb forbid, max int) []*node {
 }
 
 func (g *gen) block(depth int, fb forbid) *node {
-	kind := g.n("bk", 0, 23)
+	kind := g.n("bk", 0, 24)
 	if depth <= 0 && kind < 6 {
 		kind = 6
 	}
@@ -696,7 +696,11 @@ func (g *gen) block(depth int, fb forbid) *node {
 	case 6, 7, 8: // phrasing container
 		tag := g.pick("ptag", []string{"p", "p", "h1", "h2", "h3", "h6", "p"})
 		n := &node{tag: tag, inline: true, attrs: g.attrs(tag)}
-		if !g.chance("pempty", 10) {
+		switch g.n("pfill", 0, 11) {
+		case 0: // empty
+		case 1: // an opening {{ that is never closed is plain text
+			n.kids = []*node{{isText: true, text: g.pick("unclosed", []string{"{{ a &lt; b", "x {{ y &amp;&amp; z", "{{"})}}
+		default:
 			n.kids = g.phrasing(depth, fb)
 		}
 		return n
@@ -769,6 +773,8 @@ func (g *gen) block(depth int, fb forbid) *node {
 		n.kids = append(n.kids, &node{tag: cap, inline: true, kids: g.phrasing(0, fb)})
 		n.kids = append(n.kids, g.flow(depth-1, fb, 2)...)
 		return n
+	case 23:
+		return g.title()
 	default: // block inside a link (valid in HTML5): inline element that must be laid out as a block
 		if fb.a {
 			return g.text(false)
@@ -843,11 +849,8 @@ func (g0 *genEnv) genCase(t *rapid.T) Case {
 		switch g.n("tfrag", 0, 3) {
 		case 0:
 			roots = g.rows(2, fb)
-			for _, r := range roots {
-				if r.tag == "template" { // the context is chosen from a leading <tr>
-					roots = []*node{g.row(2, fb)}
-					break
-				}
+			if roots[0].tag == "template" { // the context of the fragment is that of a leading <tr>
+				roots = append([]*node{g.row(1, fb)}, roots...)
 			}
 			c.Ctx = "tbody"
 		case 1:
@@ -902,6 +905,9 @@ func (g0 *genEnv) genCase(t *rapid.T) Case {
 		c.FrontMatter = strings.ReplaceAll(c.FrontMatter, "\n", "\r\n")
 		c.Gap = strings.ReplaceAll(c.Gap, "\n", "\r\n")
 		c.Body = strings.ReplaceAll(strings.ReplaceAll(c.Body, "\r\n", "\n"), "\n", "\r\n")
+	}
+	if c.Ctx != "" && leadTagCR.MatchString(c.Body) && g.avoid(fCtxCR) {
+		c.Body = strings.Replace(c.Body, "\r\n", " ", 1)
 	}
 	if g.chance("opts", 5) {
 		c.Indent = rapid.SampledFrom([]int{4, 1, 8}).Draw(t, "indent")
